@@ -9,6 +9,9 @@ def check(run):
     m = run.tlc("Immutable", "MC_Immutable_mutant.cfg", workers=4, heap="4g", name="Immutable_mutant")
     if "Invariant StaysValid is violated" not in m["out"]:
         raise core.Inconclusive("vacuity guard: an accessor that aliases a buffer under Immutable must violate StaysValid")
+    m2 = run.tlc("Immutable", "MC_Immutable_scratch.cfg", workers=4, heap="4g", name="Immutable_scratch")
+    if "Invariant StableInHandler is violated" not in m2["out"]:
+        raise core.Inconclusive("vacuity guard: an accessor that hands out pooled scratch memory must violate StableInHandler")
     run.extra["vacuity_guard"] = "Immutable.tla with Aliasing = {params} violates StaysValid"
     n, s = generic.gen_replay(run, "Immutable", "MC_Immutable_thorough.cfg" if run.tier == "thorough" else "MC_Immutable.cfg", "TestC06", "immutable", workers=4)
     if s["cases"] != n:
@@ -25,4 +28,4 @@ def check(run):
                 "what was sent (both modes). Non-trivial = later requests served on the recycled buffers.")
     run.extra["driver_summary"] = s
     run.extra["violations_by_check"] = dict(collections.Counter(v["check"] for v in run.violations))
-    run.assumptions = ["without Immutable nothing is asserted after the handler returned"]
+    run.assumptions = ["without Immutable nothing is asserted after the handler returned (inside the handler, after it went on using Links / String / Attachment / GetRouteURL, every value must read as taken, in both modes)"]
